@@ -88,6 +88,17 @@ Inductive signal :=
 
 Definition tid := nat.
 
+(* counters naming the k-th gate of a kind (the k of GBody / GTimer / GEmit / GSave) *)
+Inductive ctr := CBody (i : nat) | CSleep (i : nat) | CEmit (mgr : nat) (ev : evkind) (n : option key) | CSave (n : key).
+Definition ctr_eqb (a b : ctr) : bool :=
+  match a, b with
+  | CBody i, CBody j => Nat.eqb i j
+  | CSleep i, CSleep j => Nat.eqb i j
+  | CEmit m e n, CEmit m' e' n' => Nat.eqb m m' && evkind_eqb e e' && okey_eqb n n'
+  | CSave n, CSave n' => key_eqb n n'
+  | _, _ => false
+  end.
+
 Inductive wait := WCond (c : cond) | WEvent (n : key) | WGate (g : gate).
 
 Section WithFrame.
@@ -123,28 +134,37 @@ Section WithFrame.
     st_ready : list tid;                  (* FIFO *)
     st_waiters : list (wait * tid);       (* Condition / Event waiters in arrival order; gate waiters *)
     st_events : list key;                 (* set asyncio.Events *)
-    st_trace : list obs;                  (* newest first *)
+    st_trace : list obs;                  (* newest first; write-only: nothing below reads it (Proofs/TraceErase.v) *)
+    st_ctrs : list (ctr * nat);           (* how many body invocations / timers / callbacks / saves were started, per kind *)
     st_next : tid
   }.
 
   Definition state0 : state :=
     {| st_store := storage0; st_adddata := []; st_tasks := []; st_ready := [];
-       st_waiters := []; st_events := []; st_trace := []; st_next := 0 |}.
+       st_waiters := []; st_events := []; st_trace := []; st_ctrs := []; st_next := 0 |}.
 
   Definition with_store (f : storage -> storage) (st : state) : state :=
     {| st_store := f (st_store st); st_adddata := st_adddata st;
        st_tasks := st_tasks st; st_ready := st_ready st; st_waiters := st_waiters st;
-       st_events := st_events st; st_trace := st_trace st; st_next := st_next st |}.
+       st_events := st_events st; st_trace := st_trace st; st_ctrs := st_ctrs st; st_next := st_next st |}.
 
   Definition emit_obs (o : obs) (st : state) : state :=
     {| st_store := st_store st; st_adddata := st_adddata st;
        st_tasks := st_tasks st; st_ready := st_ready st; st_waiters := st_waiters st;
-       st_events := st_events st; st_trace := o :: st_trace st; st_next := st_next st |}.
+       st_events := st_events st; st_trace := o :: st_trace st; st_ctrs := st_ctrs st; st_next := st_next st |}.
+
+  Definition ctr_get (c : ctr) (st : state) : nat :=
+    match alookup ctr_eqb c (st_ctrs st) with Some k => k | None => 0 end.
+  Definition bump (c : ctr) (st : state) : state :=
+    {| st_store := st_store st; st_adddata := st_adddata st;
+       st_tasks := st_tasks st; st_ready := st_ready st; st_waiters := st_waiters st;
+       st_events := st_events st; st_trace := st_trace st;
+       st_ctrs := aset ctr_eqb c (S (ctr_get c st)) (st_ctrs st); st_next := st_next st |}.
 
   Definition set_adddata (k : key) (v : value) (st : state) : state :=
     {| st_store := st_store st; st_adddata := aset key_eqb k v (st_adddata st);
        st_tasks := st_tasks st; st_ready := st_ready st; st_waiters := st_waiters st;
-       st_events := st_events st; st_trace := st_trace st; st_next := st_next st |}.
+       st_events := st_events st; st_trace := st_trace st; st_ctrs := st_ctrs st; st_next := st_next st |}.
 
   Fixpoint find_task (t : tid) (l : list task) : option task :=
     match l with
@@ -163,17 +183,17 @@ Section WithFrame.
        st_tasks := upd_task t (fun x => {| t_id := t_id x; t_name := t_name x; t_state := ts; t_helper := t_helper x |})
                             (st_tasks st);
        st_ready := st_ready st; st_waiters := st_waiters st;
-       st_events := st_events st; st_trace := st_trace st; st_next := st_next st |}.
+       st_events := st_events st; st_trace := st_trace st; st_ctrs := st_ctrs st; st_next := st_next st |}.
 
   Definition push_ready (t : tid) (st : state) : state :=
     {| st_store := st_store st; st_adddata := st_adddata st;
        st_tasks := st_tasks st; st_ready := st_ready st ++ [t]; st_waiters := st_waiters st;
-       st_events := st_events st; st_trace := st_trace st; st_next := st_next st |}.
+       st_events := st_events st; st_trace := st_trace st; st_ctrs := st_ctrs st; st_next := st_next st |}.
 
   Definition set_waiters (w : list (wait * tid)) (st : state) : state :=
     {| st_store := st_store st; st_adddata := st_adddata st;
        st_tasks := st_tasks st; st_ready := st_ready st; st_waiters := w;
-       st_events := st_events st; st_trace := st_trace st; st_next := st_next st |}.
+       st_events := st_events st; st_trace := st_trace st; st_ctrs := st_ctrs st; st_next := st_next st |}.
 
   (* asyncio.create_task: new task, first step appended to the ready queue *)
   Definition spawn (nm : tname) (helper : bool) (k : list frame) (st : state) : state * tid :=
@@ -181,7 +201,7 @@ Section WithFrame.
     ({| st_store := st_store st; st_adddata := st_adddata st;
         st_tasks := st_tasks st ++ [{| t_id := t; t_name := nm; t_state := TReady k SGo; t_helper := helper |}];
         st_ready := st_ready st ++ [t]; st_waiters := st_waiters st;
-        st_events := st_events st; st_trace := OSpawn t nm :: st_trace st; st_next := S t |}, t).
+        st_events := st_events st; st_trace := OSpawn t nm :: st_trace st; st_ctrs := st_ctrs st; st_next := S t |}, t).
 
   Definition wait_eqb (a b : wait) : bool :=
     match a, b with
@@ -209,7 +229,7 @@ Section WithFrame.
   Definition set_event (n : key) (st : state) : state :=
     let st1 := {| st_store := st_store st; st_adddata := st_adddata st;
                   st_tasks := st_tasks st; st_ready := st_ready st; st_waiters := st_waiters st;
-                  st_events := add_set key_eqb n (st_events st); st_trace := st_trace st; st_next := st_next st |} in
+                  st_events := add_set key_eqb n (st_events st); st_trace := st_trace st; st_ctrs := st_ctrs st; st_next := st_next st |} in
     wake_all (WEvent n) SGo st1.
 
   Definition event_is_set (n : key) (st : state) : bool := mem key_eqb n (st_events st).
@@ -257,6 +277,8 @@ Arguments state0 {frame}.
 Arguments with_store {frame}.
 Arguments emit_obs {frame}.
 Arguments set_adddata {frame}.
+Arguments ctr_get {frame}.
+Arguments bump {frame}.
 Arguments find_task {frame}.
 Arguments upd_task {frame}.
 Arguments set_tstate {frame}.
@@ -282,6 +304,7 @@ Arguments st_ready {frame}.
 Arguments st_waiters {frame}.
 Arguments st_events {frame}.
 Arguments st_trace {frame}.
+Arguments st_ctrs {frame}.
 Arguments st_next {frame}.
 Arguments t_id {frame}.
 Arguments t_name {frame}.
